@@ -154,8 +154,8 @@ def run(tier, seed, replay):
 
     # (1) design, exhaustive, the environment interleaves freely with the proxy's steps; queue scaled to 2
     if big:
-        jobs.append(("design", consts(small_reqs[:6], CTRL_RESPS[:5], 2, 3, 2, "{TRUE,FALSE}", False, False), "design", dict(workers=8, timeout=3000)))
-        jobs.append(("design_wide", consts(CTRL_REQS, CTRL_RESPS, 2, 2, 2, "{TRUE,FALSE}", False, False), "design", dict(workers=6, timeout=3000)))
+        jobs.append(("design", consts(small_reqs[:6], CTRL_RESPS[:5], 2, 3, 2, "{TRUE,FALSE}", False, False), "design", dict(workers=8, timeout=6000)))
+        jobs.append(("design_wide", consts(CTRL_REQS, CTRL_RESPS, 2, 2, 2, "{TRUE,FALSE}", False, False), "design", dict(workers=6, timeout=6000)))
     else:
         jobs.append(("design", consts(small_reqs[:6], CTRL_RESPS[:5], 2, 2, 2, "{TRUE,FALSE}", False, False), "design", dict(workers=6, timeout=3000)))
 
@@ -168,9 +168,9 @@ def run(tier, seed, replay):
                                             8 if not big else 10, 1, "{TRUE}", True, True, closers='{"cclose"}', constraint="CONSTRAINT AuthDeepOK"), "graph", dict(max_len=40)))
     #  (b) forwarding: control alphabet x response alphabet x close patterns
     if big:
-        jobs.append(("replay_forward", consts(small_reqs[:7], CTRL_RESPS[:5], cap, 3, 2, "{FALSE}", True, True), "graph", dict(max_len=40, workers=4, timeout=3000)))
-        jobs.append(("replay_forward_wide", consts(CTRL_REQS, CTRL_RESPS, cap, 2, 2, "{FALSE}", True, True), "graph", dict(max_len=40, workers=4, timeout=3000)))
-        jobs.append(("replay_forward_resp", consts(small_reqs[:4], CTRL_RESPS, cap, 2, 3, "{FALSE}", True, True), "graph", dict(max_len=40, workers=4, timeout=3000)))
+        jobs.append(("replay_forward", consts(small_reqs[:6], CTRL_RESPS[:4], cap, 3, 2, "{FALSE}", True, True), "graph", dict(max_len=40, workers=4, timeout=6000)))
+        jobs.append(("replay_forward_wide", consts(CTRL_REQS, CTRL_RESPS, cap, 2, 2, "{FALSE}", True, True, closers='{"cclose","cabort","ow"}'), "graph", dict(max_len=40, workers=4, timeout=6000)))
+        jobs.append(("replay_forward_resp", consts(small_reqs[:3], CTRL_RESPS, cap, 2, 3, "{FALSE}", True, True, closers='{"cclose","ow","orw"}'), "graph", dict(max_len=40, workers=4, timeout=6000)))
     else:
         jobs.append(("replay_forward", consts(small_reqs[:6], CTRL_RESPS[:6], cap, 2, 2, "{FALSE}", True, True), "graph", dict(max_len=40, workers=3)))
     #  (c) deep pipelining: queue full, back-pressure, release
@@ -185,7 +185,7 @@ def run(tier, seed, replay):
     #     forwardable and must be stripped; on: refused unless good, then the plain follow-up "q1" is forwarded) and
     #     responses (to GET and to HEAD; an interim one is followed by the plain final response "s1")
     nr, ns = (len(rl), len(sl)) if big else (90, 80)
-    na = len(rl) if big else 50
+    na = len(rl) // 2 if big else 50
     jobs.append(("lattice_req", consts([PLAIN_REQ] + rl[:nr], [PLAIN_RESP], cap, 1, 1, "{FALSE}", True, True, closers=lat), "graph", dict(max_len=30)))
     jobs.append(("lattice_req_auth", consts([PLAIN_REQ] + rl[-na:], [PLAIN_RESP], cap, 2, 1, "{TRUE}", True, True, closers=lat,
                                             constraint="CONSTRAINT LatticeOK"), "graph", dict(max_len=30)))
@@ -235,7 +235,7 @@ def run(tier, seed, replay):
                          heap="8g" if big else "6g")
             return name, c, r, []
         if kind == "graph":
-            r = vlib.tlc(SPEC, "MCForwarder", "MCForwarder.cfg", c, workers=opt.get("workers", 2), timeout=opt.get("timeout", 2400), edges=True, heap="3g")
+            r = vlib.tlc(SPEC, "MCForwarder", "MCForwarder.cfg", c, workers=opt.get("workers", 2), timeout=opt.get("timeout", 2400 if not big else 6000), edges=True, heap="3g")
             if r.violation:
                 return name, c, r, []
             g = vlib.Graph(r)
